@@ -293,6 +293,11 @@ fn arrow_inner(input: &[u8], rg: &RefGame) -> Result<u64, (String, String)> {
 						for i in 0..rows {
 							let a = arr.validity().map_or(true, |b| b.get_bit(i));
 							let m = mem.map_or(true, |b| b.get_bit(i));
+							// a struct that keeps validity bits keeps them in step with the character's presence
+							let present = rg.rows[i].chars[pi][fo as usize].is_some();
+							if mem.is_some() && m != present {
+								return Err(e("validity", format!("{}.{}.{}{}{} row {}: the in-memory struct's validity bit is {} but the character is {}", pname, cname, kind.name(), if name.is_empty() { "" } else { "." }, name, i, m, if present { "present" } else { "absent" })));
+							}
 							if a != m {
 								return Err(e("validity", format!("{}.{}.{}{}{} row {}: exported validity bit {} but the in-memory struct has {}", pname, cname, kind.name(), if name.is_empty() { "" } else { "." }, name, i, a, m)));
 							}
